@@ -272,8 +272,82 @@ def run (ctx):
   _text_codec(ctx, repo, lof)
   _vendor_hook(ctx, repo, lof, nx)
   _lossless_switches(ctx, repo, lof, nx)
+  _dimensions(ctx, repo, (lof, nx))
+  _declared_length(ctx, repo, lof)
   # ---- mechanisms this property shares with others
   ctx.include('C02', ['make_type_to_unpacker_table'], "decoding starts from the type-indexed table of decoders this codec hands out")
+
+def _all_funcs (m):
+  for f in m.funcs.values(): yield f
+  for c in m.classes.values():
+    for f in c.methods.values(): yield f
+
+def _dimensions (ctx, repo, mods):
+  """D12: decoders never mix positions in the buffer with sizes (pxa/dims.py)"""
+  from .. import dims
+  n = 0
+  for m in mods:
+    for f in _all_funcs(m):
+      r = dims.analyse(f.node)
+      if r is None: continue
+      n += 1; ctx.analysed(f)
+      if not r: ctx.ok('R-DIM', f, "positions in the buffer and sizes are not mixed", "every comparison / difference / helper argument that could be classified is consistent", f, 'D12')
+      for node, what in r:
+        ctx.bad('R-DIM', f, "positions in the buffer and sizes are not mixed (%s)" % what, "`%s`: %s - right only while the buffer starts at position 0, i.e. for the first message of a read; every message behind another one is decoded from the wrong bytes or rejected" % (norm(node)[:80], what), (m, node), 'D12')
+  ctx.floor('decoder functions with an offset parameter (dimension rule)', n, 80)
+
+def _declared_length (ctx, repo, lof):
+  """D13: a message decoder accounts for the declared length: either it asserts that the declared length is the object's length
+  (the layout rules tie that to what was read) or it returns the start position plus the declared length"""
+  n = 0
+  for c in lof.classes.values():
+    f = c.methods.get('unpack')
+    if f is None or not any(isinstance(x, ast.Call) and call_name(x) == '_unpack_header' for x in ast.walk(f.node)): continue
+    if c.name == 'ofp_header': continue
+    n += 1
+    tied = any(isinstance(x, ast.Assert) and norm(x.test).replace(' ', '') in ('length==len(self)', 'len(self)==length') for x in ast.walk(f.node))
+    if tied:
+      ctx.ok('R-LENFIELD', f, "the decoder consumes exactly the declared length", "assert length == len(self)", f, 'D13'); continue
+    # straight-line symbolic evaluation: offset0 + declared length
+    env = {'offset': ({'o0': 1}, 0)}; good = None; why = "not a straight-line function"
+    def sym (e):
+      if isinstance(e, ast.Constant) and isinstance(e.value, int): return ({}, e.value)
+      if isinstance(e, ast.Name): return env.get(e.id)
+      if isinstance(e, ast.BinOp) and isinstance(e.op, (ast.Add, ast.Sub)):
+        a, b = sym(e.left), sym(e.right)
+        if a is None or b is None: return None
+        sg = 1 if isinstance(e.op, ast.Add) else -1
+        d = dict(a[0])
+        for k, v in b[0].items():
+          d[k] = d.get(k, 0) + sg * v
+          if not d[k]: del d[k]
+        return (d, a[1] + sg * b[1])
+      return None
+    for st in f.node.body:
+      if isinstance(st, ast.Expr) and isinstance(st.value, ast.Constant): continue
+      if isinstance(st, ast.Assign) and len(st.targets) == 1:
+        t = st.targets[0]; v = st.value
+        if isinstance(t, ast.Tuple) and len(t.elts) == 2 and isinstance(v, ast.Call) and call_name(v) == '_unpack_header' and len(v.args) == 2 and all(isinstance(x, ast.Name) for x in t.elts):
+          a = sym(v.args[1])
+          new0 = (a[0], a[1] + 8) if a else None
+          env[t.elts[0].id] = new0; env[t.elts[1].id] = ({'L': 1}, 0); continue
+        if isinstance(t, ast.Name): env[t.id] = sym(v); continue
+        if isinstance(t, ast.Tuple) and all(isinstance(x, ast.Name) for x in t.elts):
+          for x in t.elts: env[x.id] = None
+          if isinstance(v, ast.Call) and call_name(v) in ('_read', '_skip', '_unpack') and False: pass
+          continue
+        continue
+      if isinstance(st, ast.Return) and isinstance(st.value, ast.Tuple) and st.value.elts:
+        r = sym(st.value.elts[0])
+        if r is None: why = "returned position `%s` is not linear in the start position and the declared length" % norm(st.value.elts[0])
+        else:
+          good = r == ({'o0': 1, 'L': 1}, 0)
+          why = "returns `%s` = start + declared length" % norm(st.value.elts[0]) if good else \
+                "returns `%s`, which is not the start position plus the declared length, and nothing asserts that the declared length is what was read: a message with a longer declared length (a HELLO with version-bitmap elements) leaves its tail to be decoded as the next message" % norm(st.value.elts[0])
+        break
+      if isinstance(st, (ast.If, ast.While, ast.For, ast.Try, ast.With)): break
+    ctx.ob('R-LENFIELD', f, "the decoder consumes exactly the declared length", good, why, f, 'D13')
+  ctx.floor('message decoders checked against the declared length', n, 18)
 
 def _units (ctx, repo, mods):
   """R-UNITS: inside a decoder `length` (a parameter, or read from the structure's own header; `avail` likewise) counts bytes of this structure while the cursor, its saved start and len(raw) are
